@@ -20,7 +20,10 @@ rm -f tests/seed_demo_$X.rs
 echo "demo with change rc=$RC1 (expect !=0), unchanged rc=$RC2 (expect 0)"
 else RC1=skipped; RC2=skipped; fi
 cd /verif
-git -C /repo apply $OUT/patch.diff || { echo "PATCH DOES NOT APPLY to /repo HEAD"; git -C /repo checkout -- .; exit 4; }
+PATCH=$OUT/patch.diff
+# a fix: commit may have touched the lines of a seeded change: the same change re-made on the new HEAD
+[ -f $OUT/patch_rebased.diff ] && PATCH=$OUT/patch_rebased.diff
+git -C /repo apply $PATCH || { echo "PATCH DOES NOT APPLY to /repo HEAD"; git -C /repo checkout -- .; exit 4; }
 RES=""
 for C in "$@"; do
   ./check $C quick > $OUT/check_$C.log 2>&1; RC=$?
